@@ -131,6 +131,14 @@ func opsWorker(name string, res *core.Result, r *core.RNG, tier, out string) err
 			return err
 		}
 	}
+	if name == "register" && core.Shard != 0 {
+		// many simultaneous registrations, once per worker (shard 0 runs it as one of its tours)
+		s, err := registerRaceTour(res, r.Fork())
+		if err != nil {
+			return err
+		}
+		s.finish(&items)
+	}
 	if name == "equip" && core.Shard == 1%core.Shards {
 		// conflicting authorizations while the device's datagrams are in flight: the ban goes through, nothing dies
 		if err := schedBanInFlight(res, r.Fork()); err != nil {
